@@ -906,8 +906,17 @@ func (g *generator) nextThrow(v interface{}) (Value, resultType, *Exception) {
 	defer g.unwindOnPanic()
 	ex := g.vm.handleThrow(v)
 	if ex != nil {
-		g.vm.popTryFrame()
-		g.vm.popCtx()
+		// handleThrow() stops at the marker pushed by enterNext() - or at a 'finally' frame of the generator
+		// that return() has latched (see enterNextFinallyFrame), in which case the marker and the extra
+		// context are still further down: cut back to the marker itself, as unwindOnPanic() does
+		vm := g.vm
+		if l := int(g.tryStackLen); l > 0 && l <= len(vm.tryStack) {
+			if cl := int(vm.tryStack[l-1].callStackLen); cl <= len(vm.callStack) {
+				vm.callStack = vm.callStack[:cl]
+			}
+			vm.tryStack = vm.tryStack[:l-1]
+		}
+		vm.popCtx()
 		return nil, resultNormal, ex
 	}
 
